@@ -2,6 +2,7 @@ SPECIFICATION Spec
 CONSTANTS
   Users = {"u1", "u2"}
   Flags = {"R", "F"}
+  FlagSets = {{"R"}, {"R", "F"}}
   MaxCalls = 4
   MaxFaults = 1
   MaxCloses = 1
